@@ -178,9 +178,8 @@ def heavy_delay(rng) -> float:
         return round(rng.uniform(0.0005, 0.02), 6)
     if r < 0.85:
         return round(rng.uniform(0.02, 1.0), 6)
-    if r < 0.97:
-        return round(rng.uniform(1.0, 10.0), 6)
-    return round(rng.uniform(10.0, 30.0), 6)
+    # (never longer than a few seconds: an implementation may legitimately give up on a silent device after 5-10 s)
+    return round(rng.uniform(1.0, 4.0), 6)
 
 
 def gen_garbage(rng, maxlen=1500) -> str:
@@ -210,7 +209,7 @@ def gen_reply_fault(rng, kinds: List[str], reply_len_hint: int = 56) -> Optional
     if k == "eof":
         return {"mode": "eof", "delay": d}
     if k == "rst":
-        return {"mode": "rst", "delay": d, "err": rng.choice(["reset", "reset", "timedout", "hostunreach", "netunreach", "pipe"])}
+        return {"mode": "rst", "delay": d, "err": rng.choice(["reset", "reset", "timedout", "hostunreach", "netunreach"])}
     if k == "truncate":
         return {"mode": "truncate", "n": rng.choice([1, 2, 7, 8, 11, 12, 13, 40, 44, 74, 75, 76, 77, 80, 90, 100, 106,
                                                      rng.randrange(1, 110)]), "delay": d}
@@ -838,7 +837,7 @@ def life_steps(rng, actions, cl) -> List[dict]:
             steps.append({"kind": k, "args": {}, "replies": [rng.choice([None, {"mode": "eof"}]), {"mode": "eof"}]})
         elif a == "op_rst":
             k = "get_state" if t1 else ("get_shutter_state" if cl["devkind"] == "runner" else "get_breeze_state")
-            how = {"mode": "rst", "err": rng.choice(["reset", "reset", "timedout", "hostunreach", "netunreach", "pipe"])}
+            how = {"mode": "rst", "err": rng.choice(["reset", "reset", "timedout", "hostunreach", "netunreach"])}
             steps.append({"kind": k, "args": {}, "replies": [rng.choice([None, dict(how)]), dict(how)]})
         steps[-1]["client"] = 0
         if rng.random() < 0.3:
